@@ -61,6 +61,8 @@ type deepView struct {
 	// struct values to the value stored (off by default: most rules want to see
 	// the field that is read)
 	throughFields bool
+	// exactBusy: cells under evaluation by exactBytes (self-referential reassignments)
+	exactBusy map[*ssa.Alloc]bool
 	// helperFilled: a packing buffer was handed to a library helper (gaps may be filled there)
 	helperFilled bool
 	// outerField: fieldOrigin names the outermost field of a nested field path
